@@ -996,6 +996,14 @@ func (e *Engine) evalCall(env *Env, c *ast.CallExpr) TV {
 		}
 		k := e.materialize(e.eval(env, c.Args[1]), mt.Key())
 		return TV{V: &Sc{e.mapPresent(env.cur, mt, m.V.(*Sc).T, e.flatten(mt.Key(), k.V)[0])}, T: boolT}
+	case "baseof":
+		// baseof(s): identity of the backing array of slice s (0 for nil)
+		x := e.eval(env, c.Args[0])
+		sv, ok := x.V.(*SliceSV)
+		if !ok {
+			sfail("baseof of non-slice")
+		}
+		return TV{V: &Sc{sv.Base}, T: mathIntT}
 	case "mathint":
 		return e.toMath(e.eval(env, c.Args[0]))
 	case "unixnano":
